@@ -17,7 +17,11 @@ import time
 ROOT = os.path.dirname(os.path.dirname(os.path.abspath(__file__)))
 
 #: seeded changes that are decided by another property's check than the one they were written for
-OWNER = {"C08_r2": "C19", "C07_r4": "C06", "C18_r4": "C16", "C16_r5": "C09", "C02_r6": "C13", "C11_r6": "C06", "C07_r7": "C06", "C18_r7": "C06", "C11_r5": "C01"}
+OWNER = {"C08_r2": "C19", "C07_r4": "C06", "C18_r4": "C16", "C16_r5": "C09", "C02_r6": "C13", "C11_r6": "C06", "C07_r7": "C06", "C18_r7": "C06", "C11_r5": "C01", "C02_r8": "C12"}
+
+#: seeded changes only the thorough tier reaches (a 3-thread ordering inside two adjacent statements plus an in-process
+#: resubmission: about one evaluation in a few thousand); they are run in that tier whatever MUTANT_TIER says
+THOROUGH_ONLY = {"C08_r8"}
 
 #: seeded changes no check decides (see the seed's meta.json and DESIGN.md 12.7); they are run and reported, not counted
 UNDECIDED = {"C08_r5"}
@@ -52,11 +56,12 @@ def main():
                 print(name, json.dumps(results[name]), flush=True)
                 continue
             t = time.time()
-            rc, out = sh(f"/venv/bin/python -m dexsim check {pid} --tier {tier}", cwd=ROOT,
+            tier_ = "thorough" if name in THOROUGH_ONLY else tier
+            rc, out = sh(f"/venv/bin/python -m dexsim check {pid} --tier {tier_}", cwd=ROOT,
                          env={"DEXSIM_SDK_SRC": f"{wt}/src", "DEXSIM_EVIDENCE_DIR": os.path.join(wt, "_ev"),
                               "DEXSIM_OUT_DIR": os.path.join(wt, "_out")})
             classes = [l.strip().split()[0] for l in out.splitlines() if l.strip().startswith("class=")]
-            results[name] = {"check": pid, "exit": rc, "wall_s": round(time.time() - t, 1), "classes": classes,
+            results[name] = {"check": pid, "tier": tier_, "exit": rc, "wall_s": round(time.time() - t, 1), "classes": classes,
                             "detected": rc == 1 and any(l.startswith("VIOLATION property=" + pid) for l in out.splitlines())}
         finally:
             sh(f"git -C /repo worktree remove --force {wt}")
